@@ -28,7 +28,7 @@ ASSUMPTIONS = [
     "a default config file that is not a readable regular file, or is empty, contributes nothing; the others still apply",
     "JSONARGPARSE_DEFAULT_ENV is read when the parser is constructed (documented); individual variables when it parses",
 ]
-PROBES = ["history-before-parse", "default-config-edited-after-history", "append-key-in-config", "dcf-file-reached-twice", "glob-multi", "glob-unsorted-listing", "dcf-nonfile-match", "dcf-unreadable-match", "dcf-empty-file", "env-on", "env-off-with-vars", "same-key-3-sources", "append", "dict-item", "cfg-on-argv", "env-skew"]
+PROBES = ["parse-path-in-another-directory", "history-before-parse", "default-config-edited-after-history", "append-key-in-config", "dcf-file-reached-twice", "glob-multi", "glob-unsorted-listing", "dcf-nonfile-match", "dcf-unreadable-match", "dcf-empty-file", "env-on", "env-off-with-vars", "same-key-3-sources", "append", "dict-item", "cfg-on-argv", "env-skew"]
 ANCHOR_FILES = ("_core", "_actions", "_namespace", "_typehints", "_formatters")
 NO_SHRINK = ("world/dirs", "world/cwd", "parser", "parser/*")
 SHRINK_DICTS = ("world/files", "world/env", "world/symlinks", "env_build", "direct")
@@ -45,8 +45,12 @@ KEYS = {
     "ll": ("list_list_int", [[0]]),
     "d": ("dict_str_int", {"z": 0}),
     "g.d": ("dict_str_int", {}),
+    "u": ("union_int_list", [1]),  # a Union with a scalar member before the list member: values assigned are lists, 'u+' appends
+    "my_l": ("list_int", [0]),  # declared as --my-l: option name with a dash, key my_l
 }
-METHODS = ["parse_args", "parse_args", "parse_args_envT", "parse_args_envF", "parse_env", "parse_env_os", "parse_string", "parse_string_envT", "parse_object", "parse_object_envT", "parse_args_nodef", "parse_args_nodef_envT", "parse_object_nodef", "parse_path", "parse_path_envT"]
+OPT = {"my_l": "my-l"}  # spelling of the option on the command line / in the declaration, where it differs from the key
+APPENDABLE = ("list_int", "union_int_list")
+METHODS = ["parse_path_elsewhere", "parse_args", "parse_args", "parse_args_envT", "parse_args_envF", "parse_env", "parse_env_os", "parse_string", "parse_string_envT", "parse_object", "parse_object_envT", "parse_args_nodef", "parse_args_nodef_envT", "parse_object_nodef", "parse_path", "parse_path_envT"]
 
 
 def rnd_val(r, t):
@@ -56,7 +60,7 @@ def rnd_val(r, t):
         return r.randint(1, 99) if r.random() < 0.8 else None
     if t == "str":
         return "v%d" % r.randint(1, 99) if r.random() < 0.88 else ""  # the empty string is a value like any other
-    if t == "list_int":
+    if t in ("list_int", "union_int_list"):
         return [r.randint(1, 9) for _ in range(r.randint(0, 3))]
     if t == "list_list_int":
         return [[r.randint(1, 9) for _ in range(r.randint(0, 2))] for _ in range(r.randint(0, 2))]
@@ -89,8 +93,8 @@ def doc(r, settings, appends=True):
     """one spelling style per document; a list-typed key may be spelled 'key+' (append to the list built so far)"""
     st = {}
     for k, v in settings.items():
-        if appends and KEYS[k][0] == "list_int" and r.random() < 0.2:
-            st[k + "+"] = v
+        if appends and KEYS[k][0] in APPENDABLE and r.random() < 0.2:
+            st[k + "+"] = v[0] if v and r.random() < 0.4 else v  # one item may be given bare
         else:
             st[k] = v
     return dict(st) if r.random() < 0.4 else nest(st)
@@ -173,13 +177,16 @@ def generate(rng, tier):
             k = r.choice(hot) if r.random() < 0.7 else r.choice(list(KEYS))
             tv = text(rnd_val(r, KEYS[k][0]))
             if r.random() < 0.5:
-                argv.append("--%s=%s" % (k, tv))
+                argv.append("--%s=%s" % (OPT.get(k, k), tv))
             else:
-                argv += ["--" + k, tv]
+                argv += ["--" + OPT.get(k, k), tv]
         elif c < 0.6:
-            k = r.choice(["l", "g.l"])
+            k = r.choice(["l", "g.l", "l", "g.l", "u", "my_l"])
             v = r.randint(1, 9) if r.random() < 0.6 else [r.randint(1, 9) for _ in range(r.randint(0, 2))]
-            argv.append("--%s+=%s" % (k, text(v)))
+            if r.random() < 0.8:
+                argv.append("--%s+=%s" % (OPT.get(k, k), text(v)))
+            else:
+                argv += ["--%s+" % OPT.get(k, k), text(v)]
         elif c < 0.72:
             argv.append("--%s.%s=%d" % (r.choice(["d", "d", "g.d"]), r.choice("pqr"), r.randint(1, 9)))
         else:
@@ -198,7 +205,7 @@ def generate(rng, tier):
         env_build[env_name(prefix, "a")] = "77"
     sc = {
         "parser": {"default_env": r.random() < 0.5, "dcf": dcf, "env_prefix": prefix},
-        "world": {"dirs": dirs, "files": files, "symlinks": symlinks, "fifos": fifos, "cwd": "run", "env": {}},
+        "world": {"dirs": dirs + ["other/deep"], "files": files, "symlinks": symlinks, "fifos": fifos, "cwd": "run", "env": {}},
         "env": env,
         "env_build": env_build,
         "osdefenv": osdefenv,
@@ -211,6 +218,12 @@ def generate(rng, tier):
         "faults": [],
         "tier": tier,
     }
+    if sc["method"] == "parse_path_elsewhere":
+        # the parsed file lies in another directory: relative default config patterns and a relative env config path
+        # are the process's business (its cwd), not the parsed file's.  The env config is given inline here.
+        ek = env_name(prefix, "cfg")
+        if ek in env and not env[ek].lstrip().startswith("{"):
+            env[ek] = files["run/envcfg.yaml"]
     # history: calls made on the same parser BEFORE the judged parse (their outcome is not judged), optionally
     # followed by an edit of the default config files -- the final values must follow the sources as they are
     # when the judged parse runs, not as they were when help was printed or defaults were computed earlier
@@ -325,6 +338,7 @@ def argv_sources(sc, cwd):
             continue
         else:
             k, v = tok[2:], next(it)
+        k = k.replace("-", "_")
         if k.endswith("+"):
             val = json.loads(v)
             out.append(("app", k[:-1], val if isinstance(val, list) else [val]))
@@ -354,11 +368,13 @@ def env_on(sc):
         "parse_args_nodef_envT": True,
         "parse_object_nodef": de,
         "parse_path": de,
+        "parse_path_elsewhere": de,
         "parse_path_envT": True,
     }[sc["method"]]
 
 
 def fold(sc, root, cwd, variant=None, listing=None):
+    vs = set(variant.split("+")) if variant else set()  # 'a+b': two deviations at once
     nodef = "_nodef" in sc["method"]  # defaults=False: neither code defaults nor default config files
     st = {k: (None if nodef else copy.deepcopy(d)) for k, (t, d) in KEYS.items()}
     touched = {}
@@ -367,7 +383,7 @@ def fold(sc, root, cwd, variant=None, listing=None):
         if src[0] in ("dcf", "cfg"):
             for k, v in flatten(src[1]).items():
                 if k.endswith("+") and k[:-1] in st:
-                    if variant == "env-config-append-as-assign" and origin == "env":
+                    if "env-config-append-as-assign" in vs and origin == "env":
                         app(("set", k[:-1], v if isinstance(v, list) else [v]), origin)
                     else:
                         app(("app", k[:-1], v if isinstance(v, list) else [v]), origin)
@@ -378,49 +394,49 @@ def fold(sc, root, cwd, variant=None, listing=None):
             st[src[1]] = copy.deepcopy(src[2])
             touched.setdefault(src[1], set()).add(origin)
         elif src[0] == "app":
-            if variant == "append-as-assign":
+            if "append-as-assign" in vs:
                 st[src[1]] = list(src[2])
             else:
                 st[src[1]] = list(st[src[1]] or []) + list(src[2])
             touched.setdefault(src[1], set()).add(origin)
         elif src[0] == "item":
-            d = {} if variant == "dict-item-as-assign" else dict(st[src[1]] or {})
+            d = {} if "dict-item-as-assign" in vs else dict(st[src[1]] or {})
             d[src[2]] = src[3]
             st[src[1]] = d
             touched.setdefault(src[1], set()).add(origin)
 
     order = "sorted"
-    if variant == "dcf-listing-order":
+    if "dcf-listing-order" in vs:
         order = "listing"
-    elif variant == "dcf-reversed":
+    elif "dcf-reversed" in vs:
         order = "reversed"
-    dsrc, notes = dcf_sources(sc, root, cwd, order, listing)
-    if variant == "dcf-duplicates-dropped":
+    dsrc, notes = dcf_sources(sc, root, os.path.join(root, "other/deep") if "dcf-relative-to-parsed-file-dir" in vs else cwd, order, listing)
+    if "dcf-duplicates-dropped" in vs:
         seen, uniq = set(), []
         for s in dsrc:
             if s[2] not in seen:
                 seen.add(s[2])
                 uniq.append(s)
         dsrc = uniq
-    if variant == "dcf-patterns-reversed":
+    if "dcf-patterns-reversed" in vs:
         dsrc = list(reversed(dsrc))
-    if variant != "dcf-all-dropped" and not nodef:
+    if "dcf-all-dropped" not in vs and not nodef:
         for s in dsrc:
             app(s, "dcf")
     m = sc["method"]
     envd = sc["env"]
-    if m == "parse_env" and sc.get("env_arg") is not None and variant != "env-mapping-ignored-for-process-env":
+    if m == "parse_env" and sc.get("env_arg") is not None and "env-mapping-ignored-for-process-env" not in vs:
         envd = {k: sc["env"][k] for k in sc["env_arg"] if k in sc["env"]}
     cfgsrc, varsrc = env_sources(sc, envd, cwd)
     asrc = argv_sources(sc, cwd) if m.startswith("parse_args") else []
     dsrc2 = [("cfg", sc["direct"])] if m.startswith(("parse_string", "parse_object", "parse_path")) else []
     on = env_on(sc)
-    if variant == "env-ignored":
+    if "env-ignored" in vs:
         on = False
-    if variant == "env-forced":
+    if "env-forced" in vs:
         on = True
-    esrc = (varsrc + cfgsrc) if variant == "env-vars-before-env-cfg" else (cfgsrc + varsrc)
-    if variant == "env-after-method-source":
+    esrc = (varsrc + cfgsrc) if "env-vars-before-env-cfg" in vs else (cfgsrc + varsrc)
+    if "env-after-method-source" in vs:
         for s in asrc + dsrc2:
             app(s, "argv" if asrc else "direct")
         if on:
@@ -431,21 +447,21 @@ def fold(sc, root, cwd, variant=None, listing=None):
             for s in esrc:
                 app(s, "env")
         seq = asrc + dsrc2
-        if variant == "argv-right-to-left":
+        if "argv-right-to-left" in vs:
             seq = list(reversed(seq))
         for s in seq:
             app(s, "argv" if asrc else "direct")
     return st, touched, notes, on
 
 
-VARIANTS = ["env-config-append-as-assign", "dcf-all-dropped", "dcf-duplicates-dropped", "dcf-listing-order", "dcf-reversed", "dcf-patterns-reversed", "env-ignored", "env-forced", "env-mapping-ignored-for-process-env", "env-vars-before-env-cfg", "env-after-method-source", "argv-right-to-left", "append-as-assign", "dict-item-as-assign"]
+VARIANTS = ["dcf-relative-to-parsed-file-dir", "env-config-append-as-assign", "dcf-all-dropped", "dcf-duplicates-dropped", "dcf-listing-order", "dcf-reversed", "dcf-patterns-reversed", "env-ignored", "env-forced", "env-mapping-ignored-for-process-env", "env-vars-before-env-cfg", "env-after-method-source", "argv-right-to-left", "append-as-assign", "dict-item-as-assign"]
 
 
 # ---------------------------------------------------------------------------------------------------
 
 
 def build_parser(sc):
-    args = [{"k": "cfg"}] + [{"k": "arg", "name": k, "type": t, "default": copy.deepcopy(d)} for k, (t, d) in KEYS.items()]
+    args = [{"k": "cfg"}] + [{"k": "arg", "name": OPT.get(k, k), "type": t, "default": copy.deepcopy(d)} for k, (t, d) in KEYS.items()]
     opts = {"exit_on_error": False, "default_env": sc["parser"]["default_env"], "default_config_files": list(sc["parser"]["dcf"])}
     if sc["parser"].get("env_prefix") is not None:
         opts["env_prefix"] = sc["parser"]["env_prefix"]
@@ -468,6 +484,10 @@ def run_method(p, sc):
         return p.parse_object(copy.deepcopy(sc["direct"]))
     if m == "parse_object_envT":
         return p.parse_object(copy.deepcopy(sc["direct"]), env=True)
+    if m == "parse_path_elsewhere":
+        with open("../other/deep/direct_doc.yaml", "w") as fh:
+            fh.write(json.dumps(sc["direct"]))
+        return p.parse_path("../other/deep/direct_doc.yaml")
     if m in ("parse_path", "parse_path_envT"):
         with open("direct_doc.yaml", "w") as fh:
             fh.write(json.dumps(sc["direct"]))
@@ -501,7 +521,7 @@ def run_prelude(p, name):
 
 def key_kind(k):
     t = KEYS[k][0]
-    return ("nested-" if "." in k else "flat-") + ("list" if t.startswith("list") else "dict" if t.startswith("dict") else "scalar")
+    return ("nested-" if "." in k else "dashed-" if k in OPT else "flat-") + ("list" if t.startswith("list") else "union" if t.startswith("union") else "dict" if t.startswith("dict") else "scalar")
 
 
 def execute(sc, ctx):
@@ -550,6 +570,8 @@ def execute(sc, ctx):
         exp, touched, notes, on = fold(sc, root, cwd)
         for n in notes:
             sim.probe(n)
+        if sc["method"] == "parse_path_elsewhere":
+            sim.probe("parse-path-in-another-directory")
         if on:
             sim.probe("env-on")
         elif sc["env"]:
@@ -584,6 +606,12 @@ def execute(sc, ctx):
             if all(got[k] == alt[k] for k in KEYS):
                 model = v
                 break
+        if model == "unexplained":
+            # two recorded deviations can coincide in one scenario
+            for v in ("dcf-relative-to-parsed-file-dir+env-config-append-as-assign",):
+                alt = fold(sc, root, cwd, v, listing)[0]
+                if all(got[k] == alt[k] for k in KEYS):
+                    model = v
         k0 = bad[0]
         ctx.violation(
             "fold-mismatch",
